@@ -304,7 +304,7 @@ var c16ExhAlphabet = []c16Tok{{"(", 'o'}, {")", 'c'}, {"[", 'o'}, {"]", 'c'}, {"
 func runC16(c *fw.Ctx) {
 	env := hx.NewStdEnv()
 	// (1) exhaustive: all token sequences up to length L over the reduced alphabet
-	L := c.Pick(5, 6)
+	L := c.Pick(6, 7)
 	idx := 0
 	var rec func(prefix []c16Tok)
 	rec = func(prefix []c16Tok) {
@@ -330,7 +330,7 @@ func runC16(c *fw.Ctx) {
 	// the statement's closing brackets are those of list, vector, map and set; a stray » is not demanded to be
 	// rejected (the reader treats it as a symbol character outside «…»)
 	closers := []c16Tok{{")", 'c'}, {"]", 'c'}, {"}", 'c'}}
-	for i := 0; i < c.PerShard(c.Pick(6000, 200000)); i++ {
+	for i := 0; i < c.PerShard(c.Pick(40000, 1000000)); i++ {
 		var toks []c16Tok
 		withCtor := r.Intn(3) == 0
 		c16GenExpr(r, 1+r.Intn(5), withCtor, &toks)
